@@ -7,7 +7,7 @@
      NUM <hextext>     -> <ok:base:isint:num|err|other> rd=<isint:num|none>
      FMT <0|1> <coeffdigits> <exp>  -> <hex>
      ESC <hexbytes>    -> <hex>
-   canon: n t f  #i<sign><coeff>e<exp> / #d...  #N  s<hexutf8>  [a,b]  {k<hex>:v,...}  *)
+   canon: n t f  #i<sign><coeff>e<exp> / #d...  s<hexutf8>  [a,b]  {k<hex>:v,...}  *)
 open C10_model
 
 let rec pos_of_int i = if i = 1 then XH else if i land 1 = 0 then XO (pos_of_int (i lsr 1)) else XI (pos_of_int (i lsr 1))
@@ -58,7 +58,6 @@ let rec canon b (d : data) =
   | DBool true -> Buffer.add_char b 't'
   | DBool false -> Buffer.add_char b 'f'
   | DNum (i, x) -> Buffer.add_string b (num_canon i x)
-  | DNaN _ -> Buffer.add_string b "#N"
   | DStr s -> Buffer.add_char b 's';
     let u = string_of_bytes (c10_utf8 s) in if u <> "" then Buffer.add_string b (hex u)
   | DList l ->
@@ -80,9 +79,6 @@ let canon_opt = function
 
 let b2c b = if b then '1' else '0'
 
-let cdec_str isint = function
-  | CNaN -> "nan"
-  | CFin d -> num_canon isint d
 
 (* a digit run longer than this is not evaluated (quadratic bignum arithmetic on Coq's N):
    no generated document has one; a marshalled number that has one is reported as TOOLONG *)
@@ -125,11 +121,13 @@ let handle line =
       | PNOther -> "other"
       | PNOk (base, isf, buf) ->
         if int_of_n base = 10 then
-          Printf.sprintf "ok:10:%c:%s" (b2c (not isf)) (cdec_str (not isf) (c10_apd buf))
+          (match c10_apd buf with
+           | Some d -> Printf.sprintf "ok:10:%c:%s" (b2c (not isf)) (num_canon (not isf) d)
+           | None -> "err")
         else Printf.sprintf "ok:%d:%c:-" (int_of_n base) (b2c (not isf)) in
     let rd = match c10_read_number t with
       | None -> "none"
-      | Some (isint, d) -> cdec_str isint d in
+      | Some (isint, d) -> num_canon isint d in
     Printf.sprintf "%s rd=%s" a rd
   | "FMT" :: neg :: coeff :: e :: _ ->
     let c = c10_digits_val (bytes_of_string coeff) in
